@@ -194,3 +194,40 @@ def _map_has(ex, m, k):
 def _map_at(ex, m, k):
     kt, kk = ex.lift(k)
     return SAny(z3.Function(f"map_at_{kk}", ObjSort, ELEM_SORT[kk], ObjSort)(m.t, kt))
+
+
+# -- paths ---------------------------------------------------------------------------
+def _inside_py(p, roots):
+    import os
+
+    rp = os.path.normpath(os.path.abspath(str(p)))
+    return any(rp.startswith(os.path.normpath(os.path.abspath(str(r))) + os.sep) for r in roots)
+
+
+@spec("inside", _inside_py)
+def _inside(ex, p, roots=None):
+    """The resolved path is lexically inside the search root it was joined to."""
+    if getattr(p, "inside", None) is None:
+        return False
+    return ex.to_bool_value(p.inside)
+
+
+@spec("is_file", lambda p: p.is_file())
+def _isfile(ex, p):
+    if not hasattr(p, "isfile"):
+        return False
+    return ex.to_bool_value(p.isfile)
+
+
+@spec("is_absolute_name", lambda s: __import__("pathlib").Path(s).is_absolute())
+def _is_abs(ex, s):
+    from .intrinsics_lib import P_abs
+
+    return SBool(P_abs(ex.to_str_term(s)))
+
+
+@spec("has_pardir", lambda s: ".." in __import__("pathlib").Path(s).parts)
+def _has_pardir(ex, s):
+    from .intrinsics_lib import P_pardir
+
+    return SBool(P_pardir(ex.to_str_term(s)))
